@@ -208,8 +208,29 @@ class Resolver:
         if "move" in o:
             return self.place(o["move"], at, depth, seen)
         if "const" in o:
-            return const_expr(o["const"])
+            c = const_expr(o["const"])
+            if c[0] == 'promoted':
+                r = self.promoted(c[1])
+                if r is not None:
+                    return r
+            return c
         return ('const', None, '?')
+
+    def promoted(self, idx):
+        """Value of a promoted constant of this body (a tiny body that builds `_0`)."""
+        facts = self.body.facts
+        base = self.body.path
+        if self.body.promoted:
+            return None
+        pb = facts.by_path.get("%s::{promoted#%d}" % (base, idx))
+        if pb is None:
+            return None
+        r = Resolver(pb, self.keep_refs)
+        # the value of `_0` at the return block
+        for bi, blk in enumerate(pb.blocks):
+            if blk["t"]["k"] == "return":
+                return r.local(0, (bi, -1))
+        return None
 
     def callee_name(self, f):
         if "path" not in f:
